@@ -145,3 +145,8 @@ Proof. vm_compute. reflexivity. Qed.
     the call without writing to its receiver (seeded change C19-i). *)
 Lemma gen_graph_stateless : gen_graph_fields = ["Nodes"] /\ fst gen_reverse_fresh = true.
 Proof. vm_compute. split; reflexivity. Qed.
+
+(** Package dags declares no package-level variable: no state is shared
+    between calls or between goroutines (seeded change C19-j). *)
+Lemma gen_dags_no_package_state : gen_package_vars = [].
+Proof. vm_compute. reflexivity. Qed.
